@@ -326,7 +326,8 @@ R.contract("Node._reconnect_peers", params={"self": "Node"},
            modifies=["*Peer.connection", "*Peer.disconnect_reason", "*Peer.last_connect", "*Peer.last_disconnect",
                      "dict:self.connections", "dict:self.peer_sockets", "dict:self.socket_peers",
                      "dict:self._half_ready_connections", "*MsgQueue.g_put", "*SequenceGenerator._sequence", "*Event.flag",
-                     "*list:Peer", "dict:self._peer_waiting_answer"],
+                     "*list:Peer", "dict:self._peer_waiting_answer", "*PeerConnection.state", "*Socket.closed",
+                     "*StoppableThread.stopped"],
            props=["C12", "C18", "C13"])
 R.loop("Node._reconnect_peers", 0,
        invariants=[("not-stopping", "not old(self._stopping)")],
@@ -345,6 +346,7 @@ R.loop("Node._reconnect_peers", 0,
        modifies=["self.g_dialled", "*Peer.connection", "*Peer.disconnect_reason", "*Peer.last_connect", "*Peer.last_disconnect",
                  "dict:self.connections", "dict:self.peer_sockets", "dict:self.socket_peers",
                  "dict:self._half_ready_connections", "*MsgQueue.g_put", "*SequenceGenerator._sequence", "*Event.flag",
-                 "*list:Peer", "dict:self._peer_waiting_answer"])
+                 "*list:Peer", "dict:self._peer_waiting_answer", "*PeerConnection.state", "*Socket.closed",
+                 "*StoppableThread.stopped"])
 
 R.contracts["Node._reconnect_peers"].ghost_bind = {"Node._connect_to_peer": {"gp": "peer"}}
